@@ -8,7 +8,7 @@ CONSTANT ExitCodes = {0, 1}
 CONSTANT LaunchFail = TRUE
 CONSTANT SecondReaper = FALSE
 CONSTANT WakeupFd = TRUE
-CONSTANT JobControl = FALSE
+CONSTANT JobControl = TRUE
 CONSTANT AllowAbort = FALSE
 SPECIFICATION TSpec
 POSTCONDITION Verdicts
